@@ -587,6 +587,29 @@ def parseMany (C : Codec) (inp : List Char) : List (Outcome T) :=
 termination_by inp.length
 decreasing_by exact parseR_lt C inp t r h
 
+/- ## `Parser.More` (3850fd2) and the loop of `ReadMultiTrees` over one line
+
+   `More` reads the next non-blank token and unscans it: nothing is consumed but the leading blanks
+   (the buffered token is re-read by the next `scanIgnoreWhitespace`, same mode), so it is a test on the
+   input, and the reader stands at `skipWs` afterwards. -/
+
+/-- `p.More()`: is anything but white space left -/
+def more (C : Codec) (inp : List Char) : Bool := decide ((scanIW C inp).1 ≠ .eof)
+
+/-- `for more := true; more; more = parser.More() { t, err := parser.Parse(); if err != nil { …; break }; … }`:
+    the outcomes in order; an error is the last one. -/
+def parseWhileMore (C : Codec) (inp : List Char) : List (Outcome T) :=
+  match h : parseR C inp with
+  | .ok (t, r) => .ok t :: (if more C r then parseWhileMore C (skipWs C r) else [])
+  | .err m => [.err m]
+  | .panic m => [.panic m]
+  | .unrep m => [.unrep m]
+termination_by inp.length
+decreasing_by
+  have h1 := parseR_lt C inp t r h
+  have h2 := skipWs_le C r
+  omega
+
 /- ## The scanner before fix 6ae5e49 (defect F1), kept as a variant for the regression theorem
 
    `var eof = rune(0)`: `read()` answered NUL at the end of the input, so a NUL *in* the input was taken for
